@@ -345,16 +345,21 @@ fn stream_lk(profile: &str) {
         }
         p
     };
-    let pair_budget = if thorough { 40000 } else { 1500 };
-    for _ in 0..pair_budget {
-        let d1 = rng.pick(&descs).clone();
-        let d2 = rng.pick(&descs).clone();
+    // quick: a sample of the ordered pairs; thorough: every ordered pair (416 x 416)
+    let pair_list: Vec<(usize, usize)> = if thorough {
+        (0..descs.len()).flat_map(|i| (0..descs.len()).map(move |j| (i, j))).collect()
+    } else {
+        (0..1500).map(|_| (rng.below(descs.len() as u64) as usize, rng.below(descs.len() as u64) as usize)).collect()
+    };
+    for (i1, i2) in pair_list {
+        let d1 = descs[i1].clone();
+        let d2 = descs[i2].clone();
         let eps = vec![
             Ep { id: 0, method: d1.0, path: d1.1, range: d1.2, visible: true },
             Ep { id: 1, method: d2.0, path: d2.1, range: d2.2, visible: true },
         ];
         let mut reqs = vec![];
-        for _ in 0..12 {
+        for _ in 0..(if thorough { 8 } else { 12 }) {
             let p = rng.pick(&probes).clone();
             let m = rng.pick(&["GET", "PUT", "POST"]).to_string();
             let v = Version::parse(rng.pick_s(&["0.5.0", "1.0.0", "2.0.0", "3.0.0"])).unwrap();
@@ -364,7 +369,7 @@ fn stream_lk(profile: &str) {
     }
 
     // random larger tables, each also under a permuted registration order
-    let n_tables = if thorough { 6000 } else { 500 };
+    let n_tables = if thorough { 15000 } else { 500 };
     for _ in 0..n_tables {
         let size = rng.range(1, 9) as usize;
         let eps = gen_accepted_table(&mut rng, size, versioned_pct, same_path_pct);
